@@ -1,5 +1,7 @@
 """C19 - Stream statistics equal a recount of the observed traffic.
 (M) MC_Stats  (G) Gen_Stats scripts -> real stats.recorder / stats.Interceptor  (T) Trace_Stats."""
+import hashlib
+import json
 import random
 
 import vlib
@@ -27,8 +29,9 @@ RULE = ("scripts = TLC-enumerated behaviours of Gen_Stats at the real modulus (e
         "test, a second bound stream and a foreign SSRC) + TLC random walks over the same alphabet + seeded random long histories "
         "(loss, duplicates, reordering, wrap, late bind, 3 bound SSRCs + foreign ones, compounds of 1-5 packets in any order); each "
         "is executed on the real recorder ('rec') or through the Interceptor ('icpt') and every Get result is validated by TLC "
-        "against Trace_Stats. distinct_nontrivial = number of distinct recorded traces in which some Get returned a non-zero "
-        "counter.")
+        "against Trace_Stats. distinct_nontrivial = number of distinct recorded traces (hashed without the level, so a script "
+        "run on both levels counts once) in which some Get shows more than packet/byte counting: a non-zero loss figure, a "
+        "NACK/PLI/FIR counter, an applied remote report or a round-trip measurement.")
 
 ZERO = dict(s=0, p=0, w=0, hl=0, pl=0, now=0, rate=0, d="", pk=[])
 
@@ -199,23 +202,30 @@ def random_script(rng, level, n):
 
 
 def nontrivial(evs):
+    """Some Get shows more than plain packet/byte counting: a loss figure, a feedback counter, an applied remote report
+    or a round-trip measurement."""
     for e in evs:
         if e["a"] == "get" and not e["nil"]:
             o = e["out"]
-            if o["ipr"] or o["ops"] or o["inack"] or o["onack"] or o["rn"] or o["sm"] or o["sn"] or o["ofir"] or o["opli"]:
+            if (o["ipl"] or o["inack"] or o["ipli"] or o["ifir"] or o["onack"] or o["opli"] or o["ofir"]
+                    or o["rn"] or o["sm"] or o["sn"] or o["rpl"] or o["rfrac"]):
                 return True
     return False
 
 
 CHUNK = 5000   # scripts per Go run / TLC validation (the validator holds the whole trace in memory)
+SEEN = set()   # hashes of the distinct non-trivial recorded traces of this run (level-independent: reset event excluded)
 
 
 def run_batch(ctx, scripts, tag):
     for i in range(0, len(scripts), CHUNK):
         part = scripts[i:i + CHUNK]
-        vlib.run_batch(ctx, tag=tag if len(scripts) <= CHUNK else "%s-%d" % (tag, i // CHUNK), scripts=part, pkg_rel=PKG,
-                       pkgname="stats", files=HARNESS, test="TestVerifStatsExec", trace_module="Trace_Stats.tla",
-                       nontrivial=nontrivial)
+        events = vlib.run_batch(ctx, tag=tag if len(scripts) <= CHUNK else "%s-%d" % (tag, i // CHUNK), scripts=part,
+                                pkg_rel=PKG, pkgname="stats", files=HARNESS, test="TestVerifStatsExec",
+                                trace_module="Trace_Stats.tla")
+        for _, evs in vlib.split_traces(events or []):
+            if nontrivial(evs):
+                SEEN.add(hashlib.sha1(json.dumps(evs[1:], sort_keys=True).encode()).hexdigest())
 
 
 def gen_scripts(ctx, base, obase, pre, L, level="rec", simulate=None):
@@ -275,7 +285,7 @@ def run(ctx):
         "bytes sent/received include the RTP header (pinned by the repository's tests); inbound jitter is not compared",
         "Go toolchain go1.24.0 from the module cache, pion/rtcp v1.2.17 and pion/rtp v1.10.5 marshalling trusted",
     ]
-    return vlib.finish(ctx, "model_checking", RULE)
+    return vlib.finish(ctx, "model_checking", RULE, extra_cov={"distinct_nontrivial": len(SEEN)})
 
 
 def replay(ctx, path):
